@@ -29,6 +29,8 @@ class OPENPGPKEY(dns.rdata.Rdata):
 
     # see: RFC 7929
 
+    __slots__ = ["key"]
+
     def __init__(self, rdclass, rdtype, key):
         super().__init__(rdclass, rdtype)
         self.key = self._as_bytes(key)
